@@ -88,6 +88,35 @@ def rooted_at_this(e, decls=None, loopvars=None, depth=0):
     return False
 
 
+# classes whose variables all live in ONE sub-domain field: an update of an auxiliary (cache) table of such a class does not
+# redefine the variable (finding F41: backward_assign_bool_cst cleared the three caches and never touched the product)
+PRINCIPAL_FIELD = {"crab::domains::flat_boolean_numerical_domain": "m_product"}
+
+
+def _root_field(e, decls=None, depth=0):
+    """name of the field of *this that the expression is rooted at ('*' for this itself), or None"""
+    e = deref(e)
+    if e is None:
+        return "*"
+    if not isinstance(e, dict) or depth > 8:
+        return None
+    k = e.get("k")
+    if k == "this":
+        return "*"
+    if k == "mem":
+        b = deref(e.get("b"))
+        if b is None or (isinstance(b, dict) and b.get("k") == "this"):
+            return e.get("n")
+        return _root_field(e.get("b"), decls, depth + 1)
+    if k == "call" and "o" in e:
+        return _root_field(e["o"], decls, depth + 1)
+    if k == "ref" and e.get("rk") == "local" and decls:
+        d = decls.get(e.get("id"))
+        if d is not None and "i" in d and (d.get("T") or "").rstrip().endswith("&"):
+            return _root_field(d["i"], decls, depth + 1)
+    return None
+
+
 _HELPER_MEMO = {}
 
 
@@ -177,6 +206,9 @@ def kill_events(fn, cls_qn, wp_ids, db=None, depth=0, state_params=()):
                 pos = [ENV_KILL[nm]]
             elif nm in ENV_KILL and recv is None and callee(n).get("cls") == cls_qn:
                 pos = [ENV_KILL[nm]]
+            pf = PRINCIPAL_FIELD.get((cls_qn or "").split("<")[0])
+            if pos is not None and pf is not None and recv is not None and _root_field(recv, decls) not in (pf, "*"):
+                pos = None          # an auxiliary table of a class whose variables live in `pf`
             if nm in ("assign", "forget") and recv is not None and callee(n).get("cls") != cls_qn:
                 # region domain: ghost variables of a program variable, `get_or_insert_gvars(P)` (directly or through a local),
                 # assigned / forgotten in the base domain
@@ -517,6 +549,8 @@ def enum_dispatch_rule(ctx, rid):
 FB = "include/crab/domains/flat_boolean_domain.hpp"
 FBN = "crab::domains::flat_boolean_numerical_domain"
 BOOL_MAPS = ("m_bool_to_lincsts", "m_bool_to_refcsts", "m_bool_to_bools")
+USES = "the implication sets of the other Booleans (m_bool_to_bools values)"
+ALL_CACHES = BOOL_MAPS + (USES,)
 BOOL_WRITERS = {"set_bool": 0, "assign_bool_cst": 0, "assign_bool_ref_cst": 0, "assign_bool_var": 0, "apply_binary_bool": 1,
                 "select_bool": 0}
 
@@ -606,6 +640,14 @@ def cache_invalidation_rule(ctx, rid):
                             for j, (w, maps) in hs.items():
                                 if j < len(a) and pidx(a[j]) is not None:
                                     out.extend("upd:%s:%d" % (m, pidx(a[j])) for m in maps)
+                        # occurrences of the Boolean inside the implication sets of OTHER Booleans: a helper (or an inline
+                        # transform_if) that filters m_bool_to_bools and removes the variable from the sets
+                        if nm == "transform_if" and a and is_field(a[0]) and deref(a[0]).get("n") == "m_bool_to_bools" and \
+                                any(is_call(y, name="operator-=") for x in a[1:] for y in walk(x)):
+                            for x in a[1:]:
+                                for y in walk(x):
+                                    if y.get("k") == "ref" and y.get("id") in pids:
+                                        out.append("upd:%s:%d" % (USES, pids[y["id"]]))
                         # helper taking the map itself by reference: propagate_assign_bool_var(MAP, x, y, neg)
                         for j, x in enumerate(a):
                             if is_field(x) and deref(x).get("n") in BOOL_MAPS:
@@ -629,9 +671,9 @@ def cache_invalidation_rule(ctx, rid):
                 allp = [p for r, st in fl.returns for p in st]
                 for i in range(len(fn.get("params", []))):
                     w = any(("bw:%d" % i) in p for p in allp)
-                    maps = set(BOOL_MAPS)
+                    maps = set(ALL_CACHES)
                     for p in allp:
-                        maps &= set(m for m in BOOL_MAPS if ("upd:%s:%d" % (m, i)) in p)
+                        maps &= set(m for m in ALL_CACHES if ("upd:%s:%d" % (m, i)) in p)
                     res[i] = (w, maps if allp else set())
                 summ[(fn["name"], fn["psig"])] = res
         for fn in fs:
@@ -643,7 +685,7 @@ def cache_invalidation_rule(ctx, rid):
                     for path in st:
                         if ("bw:%d" % i) not in path:
                             continue
-                        missing = [m for m in BOOL_MAPS if ("upd:%s:%d" % (m, i)) not in path]
+                        missing = [m for m in ALL_CACHES if ("upd:%s:%d" % (m, i)) not in path]
                         n_obl += 1
                         if not missing:
                             ctx.ok("%s(%s): Boolean `%s` rewritten and all cached facts about it updated" % (fn["name"], fn["psig"][:30], p["n"]),
